@@ -7,6 +7,18 @@ property, the expected old_id column) and compares everything after every step. 
 operation (atom number, new type, ...) are resolved against the *current* state, so every sub-list of a history
 is again a valid history.
 
+Process-global configuration: a case may carry 'units' (a working-unit configuration applied with
+atomman.unitconvert.reset_units: named choices that always contain a length unit, integer seeds, 'SI') and 'hist'
+('before' / 'after' / 'both').  The whole history is then run under those working units: the system is a physical
+system whose cell, origin, positions, twin displacements, Cartesian db_vect and explicit atol are generated as
+angstrom numbers and expressed in the working units in force (uc.set_in_units(., 'angstrom')), the documented default
+atol is 0.01 angstrom *physically* (= 0.01 * [angstrom in working units]) and the displacements 0.3 / 3 / ... atol are
+laid around that.  'before': the first operation of the case is first run and judged under the default working units
+(angstrom) in the same process, then the units are switched; 'after': after the run the default units are restored and
+the first operation is run and judged again under them.  Every tolerance of the oracle is relative to the cell size in
+working units (A = one angstrom in working units replaces the absolute 1.0 of the angstrom-only formulas).  The default
+units are ALWAYS restored in a finally block (the cases of one shard share a process).
+
 Site look-up is decided independently of atomman (numpy only, function `lookup`): with w_i the perpendicular
 widths of the cell, an image y = d0 + n.V of the separation d0 (n_i = 0 on non-periodic axes) satisfies
 |s0_i + n_i| <= |y| / w_i, so if atol < w_i / 2 on every periodic axis the only image that can be as short as
@@ -30,7 +42,11 @@ RULE = ("systems: conditioned cell (lengths 3-12, tilts up to half a length, cry
         "index (int, numpy int, negative) or by position (list / array / tuple, Cartesian or box-relative, through a periodic image "
         "n in {-1,0,1}^3, displaced by 0, 0.3, 0.9, 0.99, 1.01, 1.1, 1.5, 3, 30 times atol in axis, face- and body-diagonal and generic "
         "directions), atol default or 0.002 / 0.05 / 0.25, per-atom keyword values for any subset of the properties, db_vect Cartesian "
-        "or relative; refusal classes built on purpose.  Non-trivial: the cell is tilted, rotated or has a non-zero origin AND the "
+        "or relative; refusal classes built on purpose; process-global configuration: about 40 % of the cases of insert / refuse / "
+        "history run under other working units set with unitconvert.reset_units (named: length nm / m / cm / pm / aBohr / angstrom "
+        "with 0-3 of mass, time, energy, charge; integer seeds; SI), the physical system expressed in those units and the default "
+        "atol = 0.01 angstrom physically, optionally with the first operation run and judged under the default units before the "
+        "switch and/or after the restore in the same process.  Non-trivial: the cell is tilted, rotated or has a non-zero origin AND the "
         "insertion succeeded with the site chosen by position through a periodic image or in box-relative coordinates "
         "(history: additionally at least two successful insertions, so that old_id had to compose)")
 ASSUMPTIONS = ["System.dvect returns the nearest of the 27 (9/3/1) neighbouring images (decided by C02); sites only reachable through a "
@@ -39,12 +55,15 @@ ASSUMPTIONS = ["System.dvect returns the nearest of the 27 (9/3/1) neighbouring 
                "System/Atoms construction, slicing and deepcopy keep per-atom data row-aligned (decided by C06)",
                "keyword values are only given for properties the system has; the value of old_id given to a *new* atom is not "
                "documented, only that it differs from the old_id of every other atom of the result",
-               "the default (zero) value of a string property of a new interstitial atom is not asserted"]
+               "the default (zero) value of a string property of a new interstitial atom is not asserted",
+               "unitconvert.reset_units applies a working-unit configuration and set_in_units(x, 'angstrom') expresses angstrom "
+               "numbers in it (decided by C09); configurations without a length unit are not generated"]
 LEVEL_TEXT = ("Random single insertions and histories of 1-4 insertions of all four defect types over cells of any shape, every index, "
               "positions within and beyond the tolerance, images and relative coordinates, compared row by row with an independent "
               "model (count, order, survivors bit-identical, old_id composed to the first system, defect atoms last with requested "
-              "position/type/values, cell/pbc/symbols, input untouched and unaliased), plus every documented refusal.")
-TECHNIQUE = "model-based histories; independent exact site look-up (unique-image argument); refusal families; aliasing probes"
+              "position/type/values, cell/pbc/symbols, input untouched and unaliased), plus every documented refusal; the same under other process-wide working units "
+              "(reset_units named / seeded), before and after insertions under the default units in the same process.")
+TECHNIQUE = "model-based histories; independent exact site look-up (unique-image argument); refusal families; aliasing probes; working-unit configurations"
 WALL = {'quick': 60, 'thorough': 600}
 
 KEY_DB = 'C15:dumbbell:db_vect-scaled-origin'
@@ -52,7 +71,8 @@ KEY_INT = 'C15:pos:integer-typed'
 KEY_ONE = 'C15:pos:single-atom-system'
 
 EPS = 2.220446049250313e-16
-DEFAULT_ATOL = 0.01
+DEFAULT_ATOL = 0.01            # angstrom, physically: env['atol0'] is this in the working units in force
+DEFAULT_UNITS = {'length': 'angstrom', 'mass': 'amu', 'energy': 'eV', 'charge': 'e'}
 
 POOL = [('charge', 'f', []), ('tag', 'i', []), ('vel', 'f', [3]), ('flag', 'b', []), ('name', 's', []), ('st', 'f', [2, 2])]
 POOLD = {p[0]: p for p in POOL}
@@ -95,13 +115,19 @@ class Model:
                      self.kinds, oid)
 
 
-def build_env(sysd):
+def _same(a):
+    return a
+
+
+def build_env(sysd, conv=_same):
+    """conv expresses angstrom numbers in the working units in force (identity under the default units)"""
     c = sysd['cell']
-    V, o = gens.cell_vects(c), gens.cell_origin(c)
+    A = float(conv(1.0))
+    V, o = np.array(conv(gens.cell_vects(c)), dtype=float), np.array(conv(gens.cell_origin(c)), dtype=float)
     rel = np.array(sysd['rel'], dtype=float).reshape(-1, 3)
     x = rel @ V + o
     for j, d in sysd.get('twins', []):
-        x = np.vstack([x, x[j % len(x)] + np.array(d, dtype=float)])
+        x = np.vstack([x, x[j % len(x)] + np.array(conv(np.array(d, dtype=float)), dtype=float)])
     n = len(x)
     atype = np.array([sysd['atype'][i % len(sysd['atype'])] for i in range(n)], dtype=np.int64)
     props, kinds = {}, {}
@@ -113,7 +139,7 @@ def build_env(sysd):
     oid = None
     if sysd.get('old_id') is not None:
         oid = [int(sysd['old_id'][i % len(sysd['old_id'])]) + 1000 * (i // len(sysd['old_id'])) for i in range(n)]
-    env = dict(V=V, o=o, pbc=np.array(sysd['pbc'], dtype=bool), symbols=tuple(sysd['symbols']),
+    env = dict(A=A, atol0=float(conv(DEFAULT_ATOL)), V=V, o=o, pbc=np.array(sysd['pbc'], dtype=bool), symbols=tuple(sysd['symbols']),
                Vinv=np.linalg.inv(V), vmax=float(np.abs(V).max()), omax=float(np.abs(o).max()))
     env['w'] = 1.0 / np.linalg.norm(env['Vinv'], axis=0)          # perpendicular widths
     return env, Model(x, atype, props, kinds, oid)
@@ -179,7 +205,7 @@ def lookup(env, x, p, atol):
     n[:, ~pbc] = 0.0
     y = d0 + n @ env['V']
     L = np.sqrt((y * y).sum(axis=1))
-    band = 1e-7 * (1.0 + env['vmax']) * (1.0 + float(np.abs(s0).max())) + 1e-12 * env['omax']
+    band = 1e-7 * (env['A'] + env['vmax']) * (1.0 + float(np.abs(s0).max())) + 1e-12 * env['omax']
     if np.any(np.abs(L - atol) <= band):
         return 'band', None
     hit = L < atol
@@ -231,7 +257,8 @@ def plan_step(env, m, op):
     labels = set()
     natypes = max(int(m.atype.max()), len(env['symbols']))
     atol_arg = op['atol']
-    atol = DEFAULT_ATOL if atol_arg is None else float(atol_arg)
+    A = env['A']
+    atol = env['atol0'] if atol_arg is None else float(atol_arg) * A        # explicit atol: angstrom number -> working units
     k = op['k'] % N
     scale = bool(op['scale'])
     reasons = []
@@ -329,6 +356,9 @@ def plan_step(env, m, op):
     if atol_arg is not None:
         kwargs['atol'] = atol
         labels.add('atol_custom')
+    elif 'pos' in kwargs and (sel == 'pos' or t == 'i'):
+        labels.add('pos_default_atol')          # the site decision rests on the documented default tolerance
+        labels.update('datol_' + l for l in list(labels) if l.startswith('off_'))
 
     # ---- type specific
     newtype = None
@@ -350,6 +380,8 @@ def plan_step(env, m, op):
     dcart = None
     if t == 'db' or misuse in ('v_db', 'i_db', 's_db'):
         d = np.array(op['db'], dtype=float)
+        if not scale:
+            d = d * A               # Cartesian db_vect: angstrom numbers -> working units
         dcart = d @ V if scale else d
         kwargs['db_vect'], _ = fmt_vec(d, op['dbform'])
         if t == 'db' and op['atype_given']:
@@ -405,7 +437,7 @@ def plan_step(env, m, op):
             smax = 1.0 + float(np.abs(np.linalg.solve(V.T, p - o)).max())
             postol = [1e-8 * env['vmax'] * smax * 3 + 1e-12 * env['omax']]
         else:
-            postol = [4 * EPS * (1.0 + float(np.abs(p).max()))]
+            postol = [4 * EPS * (A + float(np.abs(p).max()))]
     elif t == 's':
         idx = [i for i in range(N) if i != target] + [target]
         new = m.take(idx)
@@ -428,7 +460,7 @@ def plan_step(env, m, op):
             if name in kwvals:
                 new.props[name][-1] = np.array(kwvals[name], dtype=DT[kind])
         ndef = 2
-        tol = 8 * EPS * (1.0 + float(np.abs(m.x[target]).max()) + float(np.abs(dcart).max()))
+        tol = 8 * EPS * (A + float(np.abs(m.x[target]).max()) + float(np.abs(dcart).max()))
         if scale:
             tol += 1e-8 * env['vmax'] * float(np.abs(op['db']).max()) * 3
         postol = [tol, tol]
@@ -560,7 +592,7 @@ def do_step(am, P, env, system, m, op, first, first_snap, step):
             kw2['ptd_id'] = target
             labels.add('cross_pos_to_id')
         else:
-            st_, hit = lookup(env, m.x, m.x[target], float(kw.get('atol', DEFAULT_ATOL)))
+            st_, hit = lookup(env, m.x, m.x[target], float(kw.get('atol', env['atol0'])))
             if st_ == 'ok' and len(hit) == 1:
                 if kw.get('scale', False):
                     kw2['pos'] = np.linalg.solve(env['V'].T, m.x[target] - env['o'])
@@ -586,10 +618,53 @@ def do_step(am, P, env, system, m, op, first, first_snap, step):
     return res, new, labels, True
 
 
-def run_history(case, allow_int_key=True):
+def apply_units(uc, cfg):
+    if cfg['kind'] == 'named':
+        uc.reset_units(**cfg['units'])
+    elif cfg['kind'] == 'seed':
+        uc.reset_units(seed=int(cfg['seed']))
+    else:
+        uc.reset_units(seed='SI')
+
+
+def run_history(case):
+    """the history of the case under its working-unit configuration (process-global), with the first operation optionally
+    run and judged under the default units before the switch / after the restore; the default units are always restored"""
     import atomman as am
     import atomman.defect as P
-    env, m = build_env(case['sys'])
+    import atomman.unitconvert as uc
+    cfg = case.get('units')
+    if cfg is None:
+        return _run_history(am, P, case, _same)
+    hist = case.get('hist')
+    head = {'sys': case['sys'], 'ops': case['ops'][:1]}
+    try:
+        if hist in ('before', 'both'):
+            _run_history(am, P, head, _same)            # same process, default working units, same oracles
+        apply_units(uc, cfg)
+        A = float(uc.set_in_units(1.0, 'angstrom'))
+        if not (np.isfinite(A) and A > 0.0):
+            raise Violation('after reset_units(%r) one angstrom is %r working units' % (cfg, A))
+        labels, nok, nt_site, skewed = _run_history(am, P, case, lambda a: uc.set_in_units(a, 'angstrom'))
+        labels.add('units')
+        labels.add('units_' + cfg['kind'])
+        if cfg['kind'] == 'named':
+            labels.add('units_len_' + cfg['units']['length'])
+        labels.add('units_A_same' if A == 1.0 else 'units_A_gt1' if A > 1.0 else 'units_A_ge1e-3' if A >= 1e-3 else 'units_A_lt1e-3')
+        if 'pos_default_atol' in labels:
+            labels.add('units_pos_default_atol')
+            labels.update('units_' + l for l in list(labels) if l in ('datol_off_0.3', 'datol_off_3'))
+        if hist:
+            labels.add('hist_' + hist)
+    finally:
+        uc.reset_units(**DEFAULT_UNITS)
+    if hist in ('after', 'both'):
+        _run_history(am, P, head, _same)                # back under the default units
+    return labels, nok, nt_site, skewed
+
+
+def _run_history(am, P, case, conv):
+    env, m = build_env(case['sys'], conv)
     system = make_system(am, env, m)
     first, first_snap = system, snapshot(system)
     labels = set(gens.cell_labels(case['sys']['cell']))
@@ -771,7 +846,43 @@ _misuse = st.sampled_from(['v_db', 'v_kw', 'i_id', 'i_db', 's_db', 'badtype'])
 _oldid_kw = st.sampled_from([None] * 7 + [100000])
 
 
-def draw_op(draw, props, refuse=False, offf=None, posform=None):
+# process-global working-unit configurations (always with a length unit; never mass, time and energy together)
+_ULEN = ['nm', 'nm', 'nm', 'm', 'm', 'cm', 'cm', 'pm', 'aBohr', 'angstrom']
+_UOTHER = {'mass': ['amu', 'kg', 'g'], 'time': ['ps', 's', 'fs'], 'energy': ['eV', 'J', 'kcal'], 'charge': ['e', 'C']}
+_USUB = [(), (), ('mass',), ('energy',), ('mass', 'time'), ('time', 'energy'), ('mass', 'energy', 'charge'), ('time', 'charge')]
+_ulen = st.sampled_from(_ULEN)
+_usub = st.sampled_from(_USUB)
+_uoth = {q: st.sampled_from(v) for q, v in _UOTHER.items()}
+_ukind = st.sampled_from([None] * 6 + ['named', 'named', 'named', 'seed'])
+_ukind_on = st.sampled_from(['named', 'named', 'named', 'seed', 'seed', 'SI'])
+_uhist = st.sampled_from(['both', 'before', 'before', 'after', None, None])      # 'both' first: a shrunk failing case carries its own process history
+_offf_units = st.sampled_from([0.3, 0.3, 3.0, 3.0, 0.9, 1.5])
+_useed = st.one_of(st.integers(0, 50), _seed)
+
+
+def draw_units(draw):
+    """(units, hist): None, None for the default working units"""
+    if draw(_ukind) is None:
+        return None, None
+    kind = draw(_ukind_on)
+    if kind == 'named':
+        u = {'length': draw(_ulen)}
+        for q in draw(_usub):
+            u[q] = draw(_uoth[q])
+        cfg = {'kind': 'named', 'units': u}
+    elif kind == 'seed':
+        cfg = {'kind': 'seed', 'seed': draw(_useed)}
+    else:
+        cfg = {'kind': 'SI'}
+    return cfg, draw(_uhist)
+
+
+def with_units(draw, case):
+    case['units'], case['hist'] = draw_units(draw)
+    return case
+
+
+def draw_op(draw, props, refuse=False, offf=None, posform=None, units=None):
     rng = np.random.default_rng(draw(_seed))
     mask = draw(_kwmask)
     kw = []
@@ -789,21 +900,29 @@ def draw_op(draw, props, refuse=False, offf=None, posform=None):
         'irel': [draw(_irel) for _ in range(3)], 'inear': draw(_one_in_5), 'tshift': draw(_tshift), 'atype_given': draw(_bool),
         'db': d, 'dbform': draw(_dbform), 'kw': kw, 'kwlist': draw(_bool), 'oldid_kw': draw(_oldid_kw), 'misuse': None,
     }
+    if units is not None:
+        # under other working units the documented default tolerance and the displacements 0.3 / 3 atol around it matter most
+        if offf is None and draw(_bool):
+            op['off'][0] = draw(_offf_units)
+        if draw(_bool):
+            op['atol'] = None
     return op
 
 
 @st.composite
 def insert_cases(draw):
     s = draw_system(draw)
-    return {'sys': s, 'ops': [draw_op(draw, s['props'])]}
+    cfg, hist = draw_units(draw)
+    return {'sys': s, 'ops': [draw_op(draw, s['props'], units=cfg)], 'units': cfg, 'hist': hist}
 
 
 @st.composite
 def history_cases(draw):
     s = draw_system(draw)
     n = draw(st.integers(1, 4))
-    ops = [draw_op(draw, s['props'], offf=_offf_in if draw(_bool) else None) for _ in range(n)]
-    return {'sys': s, 'ops': ops}
+    cfg, hist = draw_units(draw)
+    ops = [draw_op(draw, s['props'], offf=_offf_in if draw(_bool) else None, units=cfg) for _ in range(n)]
+    return {'sys': s, 'ops': ops, 'units': cfg, 'hist': hist}
 
 
 _refuse_kind = st.sampled_from(['sel', 'sel', 'misuse', 'beyond', 'twin', 'twin', 'occupied', 'sametype', 'nonperiodic'])
@@ -842,7 +961,7 @@ def refuse_cases(draw):
         op['tshift'] = 0
         op['atype_given'] = True
         op['off'][0] = 0.0
-    return {'sys': s, 'ops': [op]}
+    return with_units(draw, {'sys': s, 'ops': [op]})
 
 
 # integer-typed positions: cells and atoms with integral Cartesian coordinates
@@ -886,20 +1005,25 @@ def oracle_intpos(case):
 
 
 CLAUSES = [
-    Clause('insert', oracle_insert, insert_cases, quick=16000, thorough=400000,
+    Clause('insert', oracle_insert, insert_cases, quick=15000, thorough=380000,
            min_share={'nt': 0.1, 'image': 0.15, 'scaled': 0.12, 'id_neg': 0.03, 'refuse_nosite': 0.1, 'cross_pos_to_id': 0.08,
                       'cross_id_to_pos': 0.08, 'alias_probe': 0.08, 'kw': 0.1, 'twin': 0.05, 'had_old_id': 0.07, 'mixed_pbc': 0.2,
-                      'type_v': 0.1, 'type_i': 0.1, 'type_s': 0.1, 'type_db': 0.08, 'via_point': 0.15},
-           desc='one insertion of any type, site by index or position (within/beyond atol, images, relative), against the model'),
-    Clause('refuse', oracle_insert, refuse_cases, quick=5000, thorough=80000, nontrivial='refusal',
+                      'type_v': 0.1, 'type_i': 0.1, 'type_s': 0.1, 'type_db': 0.08, 'via_point': 0.15,
+                      'units': 0.15, 'units_named': 0.07, 'units_seed': 0.05, 'units_len_nm': 0.02, 'units_A_lt1e-3': 0.1,
+                      'units_pos_default_atol': 0.09, 'units_datol_off_0.3': 0.015, 'units_datol_off_3': 0.013,
+                      'hist_before': 0.05, 'hist_after': 0.02, 'hist_both': 0.02},
+           desc='one insertion of any type, site by index or position (within/beyond atol, images, relative), against the model; '
+                'about a third under other process-wide working units (reset_units), default atol = 0.01 angstrom physically'),
+    Clause('refuse', oracle_insert, refuse_cases, quick=4600, thorough=75000, nontrivial='refusal',
            min_share={'refusal': 0.45, 'refuse_both': 0.04, 'refuse_oor': 0.03, 'refuse_neither': 0.008, 'refuse_notallowed': 0.04,
                       'refuse_occupied': 0.03, 'refuse_sametype': 0.05, 'refuse_nosite': 0.15, 'ambiguous': 0.01,
-                      'image_nonperiodic': 0.08},
+                      'image_nonperiodic': 0.08, 'units': 0.15, 'units_pos_default_atol': 0.05, 'hist_before': 0.05},
            desc='refusal classes built on purpose: absent / ambiguous / occupied site, same type, both / neither of pos and ptd_id, '
                 'index out of range, point() keyword misuse; input untouched'),
     Clause('intpos', oracle_intpos, intpos_cases, quick=2000, thorough=20000, min_share={'int_used': 0.3, 'nt': 0.2},
            desc='positions with integral coordinates given as integer-typed list / array'),
-    Clause('history', oracle_history, history_cases, quick=3000, thorough=80000,
-           min_share={'composed': 0.15, 'nt': 0.07, 'mixed_types': 0.2},
+    Clause('history', oracle_history, history_cases, quick=2800, thorough=75000,
+           min_share={'composed': 0.15, 'nt': 0.07, 'mixed_types': 0.2, 'units': 0.15, 'units_pos_default_atol': 0.14,
+                      'units_datol_off_0.3': 0.04, 'hist_before': 0.05},
            desc='1-4 successive insertions; old_id composes to the first system; every intermediate input untouched'),
 ]
